@@ -18,7 +18,7 @@ NameList == << <<109>>, <<115>>, <<74>>, <<109,111,108>>, <<103>>, <<76>>, <<75>
 PrefList == << <<>>, <<107>>, <<109>>, <<100,97>>, <<117>> >>   \* none k m da u
 PowList == << <<>>, <<94,50>>, <<94,45,49>>, <<94,48,46,53>>, <<94,40,45,50,41>>, <<94,51>> >>
             \* "" ^2 ^-1 ^0.5 ^(-2) ^3
-NumList == << <<50>>, <<50,46,53>>, <<49,48>> >>   \* 2 2.5 10
+NumList == << <<50>>, <<50,46,53>>, <<49,48>>, <<50,101,51>>, <<49,46,53,69,45,50>> >>   \* 2 2.5 10 2e3 1.5E-2
 OpList == << SP, <<42>>, <<47>>, <<32,42,32>> >>    \* juxtaposition, *, /, " * "
 
 Atoms == {PrefList[p] \o NameList[n] \o PowList[w] :
@@ -30,7 +30,7 @@ Pairs == {a \o o \o b : a \in Atoms, b \in Atoms, o \in {OpList[k] : k \in 1..Le
 MAtoms == {<<109>>, <<107,74>>, <<115,94,45,49>>, <<50>>, <<109,111,108,94,40,45,50,41>>}
 MBase == {Tokenise(a \o o \o b) : a \in MAtoms, b \in MAtoms, o \in {SP, <<47>>}}
 Vocab == {<<109>>, <<94>>, <<40>>, <<41>>, <<47>>, <<42>>, <<50>>, <<45,49>>, <<102,111,111>>,
-          <<46>>, <<36>>, <<49,46,50,46,51>>}   \* m ^ ( ) / * 2 -1 foo . $ 1.2.3
+          <<46>>, <<36>>, <<49,46,50,46,51>>, <<50,101,43,48,50>>, <<101>>, <<51,101>>}   \* m ^ ( ) / * 2 -1 foo . $ 1.2.3 2e+02 e 3e
 RECURSIVE JoinSp(_)
 JoinSp(ts) == IF ts = <<>> THEN <<>> ELSE IF Len(ts) = 1 THEN ts[1]
               ELSE ts[1] \o SP \o JoinSp(Tail(ts))
